@@ -49,7 +49,14 @@ KeyConformant(alg, k) ==
     [] k.kind = "dsa"   -> alg \in {3, 6} /\ k.t <= 8
     [] k.kind = "ec"    -> (alg = 13 /\ k.size = 32) \/ (alg = 14 /\ k.size = 48) \/ (alg = 12 /\ k.size = 32)
     [] k.kind = "eddsa" -> (alg = 15 /\ Len(k.key) = 32) \/ (alg = 16 /\ Len(k.key) = 57)
-DnsConformant(kind, m) == IF kind = "dnskey" THEN KeyConformant(m.algorithm, m.key) /\ m.protocol = 3 ELSE TRUE
+\* RFC 1035 3.1: a label is 1..63 octets (the zero-length label is the root and ends the name)
+LabelsOk(ls) == \A i \in 1..Len(ls) : Len(ls[i]) >= 1 /\ Len(ls[i]) <= 63
+DnsConformant(kind, m) ==
+  CASE kind = "dnskey" -> KeyConformant(m.algorithm, m.key) /\ m.protocol = 3
+    [] kind = "name"   -> LabelsOk(m.labels)
+    [] kind = "mx"     -> LabelsOk(m.exchange)
+    [] kind = "rrsig"  -> LabelsOk(m.signers_name)
+    [] OTHER -> TRUE
 
 DnsEnc(kind, m) ==
   CASE kind = "dnskey" -> Dnskey(m)
